@@ -306,8 +306,7 @@ def hist_key(h):
 def validate(ctx, kind, traces, hists, label):
     """Write the trace file, run TLC in contract and design mode, turn counter-examples into violations."""
     path = os.path.join(common.scratch("c03"), f"traces_{label}.json")
-    with open(path, "w") as f:
-        json.dump(traces, f)
+    tlc.write_json(path, traces)
     nev = sum(len(t) for t in traces)
     rc_ = ctx.tlc("Trace_Stream", f"Trace_Stream_{kind.packer}_contract.cfg", f"trace validation, contract mode, {label}", env={"TRACE_FILE": path})
     seen = set()
